@@ -1468,6 +1468,18 @@ impl SparqlDatabase {
         partial_results
     }
 
+    /// Encodes a term that the N-Triples / N-Quads line parser has already cleaned
+    /// (brackets stripped, literal unquoted and unescaped).  Only a quoted triple still
+    /// has to be parsed; any other term is stored as it is: interpreting it a second
+    /// time would trim, unquote or unbracket the value of a literal again.
+    fn encode_cleaned_term(&self, term: &str) -> u32 {
+        if term.starts_with("<<") && term.ends_with(">>") {
+            self.encode_term_star(term)
+        } else {
+            self.dictionary.write().unwrap().encode(term)
+        }
+    }
+
     // Encode triples
     pub fn encode_triples(
         &mut self,
@@ -1477,9 +1489,9 @@ impl SparqlDatabase {
         for triple_strings in non_encoded_triples {
             for (subject, predicate, object) in triple_strings {
                 let main_triple = Triple {
-                    subject: self.encode_term_star(&subject),
-                    predicate: self.encode_term_star(&predicate),
-                    object: self.encode_term_star(&object),
+                    subject: self.encode_cleaned_term(&subject),
+                    predicate: self.encode_cleaned_term(&predicate),
+                    object: self.encode_cleaned_term(&object),
                 };
                 encoded_triples.push(main_triple);
             }
@@ -1510,20 +1522,19 @@ impl SparqlDatabase {
             if let Some((subject, predicate, object, graph)) =
                 self.parse_nquads_line(line_without_dot)
             {
-                match graph {
+                let graph = match graph {
                     Some(graph) => {
-                        self.add_quad_parts(&subject, &predicate, &object, &graph);
+                        GraphId::Named(self.dictionary.write().unwrap().encode(&graph))
                     }
-                    None => {
-                        let quad = Quad {
-                            subject: self.encode_term_star(&subject),
-                            predicate: self.encode_term_star(&predicate),
-                            object: self.encode_term_star(&object),
-                            graph: GraphId::Default,
-                        };
-                        self.add_quad(quad);
-                    }
-                }
+                    None => GraphId::Default,
+                };
+                let quad = Quad {
+                    subject: self.encode_cleaned_term(&subject),
+                    predicate: self.encode_cleaned_term(&predicate),
+                    object: self.encode_cleaned_term(&object),
+                    graph,
+                };
+                self.add_quad(quad);
             }
         }
     }
